@@ -535,7 +535,8 @@ def eval_version_gate(ctx, R, fn):
     sup = ("T", (5, 5, 5))
     path = O("file_path")
     try:
-        for req in list(itertools.product((4, 5, 6), repeat=3)) + [None]:
+        # (components far apart as well: an ordering computed as `minor * 1000 + patch` agrees on small numbers only)
+        for req in list(itertools.product((4, 5, 6, 5000), repeat=3)) + [None]:
             del made[:]
             res = w.call_fn(fn, [path, S("Some", O("file-id")), NONE if req is None else S("Some", ("T", req)), sup])
             n += 1
@@ -561,8 +562,8 @@ def eval_version_gate(ctx, R, fn):
         return False
     except Panic as p_:
         wrong.append("panics (%s)" % p_)
-    ctx.floor(R, "version worlds evaluated", n, 28)
-    ctx.check(R, "check_file_compiler_version/gate", not wrong, "; ".join(wrong[:4]) or "28 worlds: error exactly when the major differs or (minor, patch) exceeds the supported one; without a pragma one warning", site(LIB, fn))
+    ctx.floor(R, "version worlds evaluated", n, 65)
+    ctx.check(R, "check_file_compiler_version/gate", not wrong, "; ".join(wrong[:4]) or "65 worlds: error exactly when the major differs or (minor, patch) exceeds the supported one; without a pragma one warning", site(LIB, fn))
     return True
 
 
